@@ -79,8 +79,7 @@ def check_connect(chk, repo, sup):
                         for nvs in (1, 2):
                             for t2 in other_types if (nus > 1 or nvs > 1) else [None]:
                                 for as_str in ((True, False) if nus == 1 and nvs == 1 else (False,)):
-                                    for order in ((0, 1) if (nus > 1 or nvs > 1) else (0,)):
-                                        n_states += 1
+                                    for order, pre in (((0, 0), (1, 0), (0, 1), (1, 1)) if (nus > 1 or nvs > 1) else ((0, 0),)):
                                         attrs = {"u": {"type": tu, "output": False}, "v": {"type": tv, "output": False}}
                                         edges = []
                                         for i in range(fin):
@@ -96,15 +95,24 @@ def check_connect(chk, repo, sup):
                                         if nvs > 1:
                                             attrs["v2"] = {"type": t2, "output": False}
                                             vs = ["v", "v2"]
+                                        if pre:
+                                            # one of the requested edges exists already: u feeds the *other* sink / the *other* source feeds v
+                                            if nvs > 1:
+                                                edges.append(("u", "v2"))
+                                            if nus > 1:
+                                                edges.append(("u2", "v"))
                                         if order:
                                             us, vs = us[::-1], vs[::-1]
                                         c = MMutCircuit(attrs, edges)
+                                        if pre and c.illegal():
+                                            continue  # not a reachable state
+                                        n_states += 1
                                         want_err = reference_connect_error(c, us, vs)
                                         env = base_env(repo)
                                         env.update({"self": c, pu: "u" if as_str else list(us), pv: "v" if as_str else list(vs)})
                                         r = _run_body(fi, env, "Circuit.connect")
                                         added = [l for l in c._log if l[0] == "add_edge"]
-                                        state = {"source_type": tu, "sink_type": tv, "sink_fanin": fin, "source_fanout": fout, "us": us, "vs": vs, "second_type": t2}
+                                        state = {"source_type": tu, "sink_type": tv, "sink_fanin": fin, "source_fanout": fout, "us": us, "vs": vs, "second_type": t2, "existing_edges": [e for e in edges if e[0] in ("u", "u2") and e[1] in ("v", "v2")]}
                                         if want_err:
                                             ok = r[0] == "raise" and r[1] == "ValueError" and not added
                                             if not ok:
